@@ -57,12 +57,14 @@ type FuncResult struct {
 	Relied    []string
 	CoverPC   [][]string
 	Transp    bool
+	Observed  map[string]string
 }
 
 // VerifyFunc generates all obligations of fn against spec.
-func VerifyFunc(p *Program, fn *ssa.Function, spec *FuncSpec) (res *FuncResult) {
+func VerifyFunc(p *Program, fn *ssa.Function, spec *FuncSpec, observe map[string]string) (res *FuncResult) {
 	_, short, full := funcForms(fn)
 	x := newExec(p, fn, spec)
+	x.Observe = observe
 	res = &FuncResult{Func: short, ID: full, Spec: spec, Reg: x.reg}
 	if len(fn.TypeArgs()) > 0 {
 		var as []string
@@ -92,6 +94,7 @@ func VerifyFunc(p *Program, fn *ssa.Function, spec *FuncSpec) (res *FuncResult) 
 		res.Inlined = keysOf(x.inlined)
 		res.Relied = keysOf(x.calledBy)
 		res.CoverPC = x.coverPC
+		res.Observed = x.obsTerms
 		if x.fail != nil && res.Fail == "" {
 			res.Fail = x.fail.Error()
 		}
@@ -117,6 +120,16 @@ func (r *FuncResult) Query(q PathQuery, wantModel bool) string {
 	}
 	sb.WriteString("(set-logic ALL)\n")
 	texts := append(append([]string(nil), q.PC...), q.Goal)
+	var obsNames []string
+	if wantModel {
+		for n := range r.Observed {
+			obsNames = append(obsNames, n)
+		}
+		sort.Strings(obsNames)
+		for _, n := range obsNames {
+			texts = append(texts, r.Observed[n])
+		}
+	}
 	for _, d := range r.Reg.closure(texts) {
 		sb.WriteString(d)
 		sb.WriteString("\n")
@@ -126,7 +139,9 @@ func (r *FuncResult) Query(q PathQuery, wantModel bool) string {
 	}
 	sb.WriteString("(assert (not " + q.Goal + "))\n(check-sat)\n")
 	if wantModel {
-		sb.WriteString("(get-model)\n")
+		for _, n := range obsNames {
+			sb.WriteString(fmt.Sprintf("(echo \"obs %s\")\n(eval %s)\n", n, r.Observed[n]))
+		}
 	}
 	return sb.String()
 }
@@ -146,3 +161,16 @@ func (r *FuncResult) CoverQuery(pc []string) string {
 }
 
 func (o *Obligation) String() string { return fmt.Sprintf("%s (%d path queries)", o.Name, len(o.Queries)) }
+
+// ShortName is the display name of a function (package-qualified, instantiation in brackets).
+func ShortName(fn *ssa.Function) string {
+	_, short, _ := funcForms(fn)
+	if len(fn.TypeArgs()) > 0 {
+		var as []string
+		for _, t := range fn.TypeArgs() {
+			as = append(as, types.TypeString(t, shortQual))
+		}
+		short += "[" + strings.Join(as, ",") + "]"
+	}
+	return short
+}
